@@ -109,12 +109,21 @@ func histVerdicts(ops []histOp) []string {
 			}
 		case "S":
 			if ok {
+				moved := -1
 				for i, nm := range handleName {
 					if nm == op.name && i < len(nsOfHandle) && nsOfHandle[i] == targetNS[k] {
 						weird = true // New on an existing name detaches the old object
 						if _, done := detached[i]; !done {
 							detached[i] = k
 						}
+						// ... which from now on is the only member of a new, empty set of its own: every handle that
+						// denotes it (and every handle obtained through one of them later) belongs to that set
+						if moved < 0 {
+							moved = nsCount
+							graph[nsCount] = map[string][]string{}
+							nsCount++
+						}
+						nsOfHandle[i] = moved
 					}
 				}
 				nsOfHandle = append(nsOfHandle, targetNS[k])
@@ -236,7 +245,7 @@ func histVerdicts(ops []histOp) []string {
 			// detached by t.New - it concerns those sets only)
 			k0 := -1
 			for j := 0; j < k; j++ {
-				if isExecKind(ops[j].kind) && targetNS[j] == ns && run.results[j] != "badop" && !isDetached(ops[j].h, j) {
+				if isExecKind(ops[j].kind) && targetNS[j] == ns && run.results[j] != "badop" {
 					k0 = j
 					break
 				}
@@ -339,7 +348,7 @@ func histVerdicts(ops []histOp) []string {
 			// after any execution in the name space every Parse must fail
 			late := false
 			for j := 0; j < k; j++ {
-				if isExecKind(ops[j].kind) && targetNS[j] == ns && run.results[j] != "badop" && !isDetached(ops[j].h, j) {
+				if isExecKind(ops[j].kind) && targetNS[j] == ns && run.results[j] != "badop" {
 					late = true
 				}
 			}
